@@ -197,6 +197,17 @@ theorem model_satisfies_spec (H : Hashes) (p : Package) :
         List.any_eq_true.mpr ⟨r, hr, by simp [hs]⟩
       by_cases hc : c = "mismatch" <;> simp [obsOfOut, hc, judge, judgeWith, hu]
 
+/-! ### "its standard tags": the tag numbers of the CODE (scraped from src/constants.rs) are rpm's -/
+
+/-- the five tags `verify_digests` reads, and the alternative payload digest, carry the numbers of rpm's `rpmtag.h`
+(RPMSIGTAG_MD5 1004, RPMSIGTAG_SHA1 = RPMTAG_SHA1HEADER 269, RPMSIGTAG_SHA256 = RPMTAG_SHA256HEADER 273,
+RPMTAG_PAYLOADDIGEST 5092, RPMTAG_PAYLOADDIGESTALGO 5093, RPMTAG_PAYLOADDIGESTALT 5097; SHA-256 is algorithm 8): a digest
+looked up under another number would be "absent" on every rpm-built package and its comparison silently skipped -/
+theorem digest_tags_standard :
+    SigTag.RPMSIGTAG_MD5 = 1004 ∧ SigTag.RPMSIGTAG_SHA1 = 269 ∧ SigTag.RPMSIGTAG_SHA256 = 273
+    ∧ IndexTag.RPMTAG_PAYLOADDIGEST = 5092 ∧ IndexTag.RPMTAG_PAYLOADDIGESTALGO = 5093 ∧ IndexTag.RPMTAG_PAYLOADDIGESTALT = 5097
+    ∧ Gen.digestAlgoTable.lookup "Sha2_256" = some 8 ∧ Gen.digestAlgoTable.lookup "Md5" = some 1 := by decide
+
 /-! ### the hashed byte strings are the package's own bytes -/
 
 /-- for every accepted byte string: the re-serialised main header is the header region of the input in
